@@ -11,7 +11,8 @@
 // Tolerance: both paths evaluate the same correlation function; they differ only in how the reduced distance is
 // formed: plain = |T (x2 - x1)|, optimised = |T x2 - T x1| (T = inverse anisotropy tensor). The second form loses
 // eps*|x|/scale in the reduced distance, hence tol = C * eps * (S + max|C|) * (1 + |x|max / min scale), C = 1e3,
-// S = sum over structures of the largest sill.
+// S = sum over structures of max(largest sill, |C_k(0)|)  (|C_k(0)| >> sill for the intrinsic structures, whose
+// values - and the round-off of C(0)-C(h) in variogram mode - scale with the field extension).
 #include "common/vh.hpp"
 #include "common/c04_gen.hpp"
 #include "Matrix/MatrixRectangular.hpp"
@@ -130,13 +131,18 @@ static void run_case(Rng& r, Ctx& c)
   // ---- tolerance ingredients ------------------------------------------------------------------------------------
   double coordMag = 0;
   for (auto& s : specs) coordMag = std::max(coordMag, s.pts.maxabs());
-  double minScale = 1e300, S = 0;
+  double minScale = 1e300, S = 0, SU = 0;
   for (int k = 0; k < mplain->getCovaNumber(); k++)
   {
     const CovAniso* cv = mplain->getCova(k);
     double smax        = 0;
     for (int v = 0; v < nvar; v++) smax = std::max(smax, std::fabs(cv->getSill(v, v)));
-    S += smax;
+    // magnitude of the structure at zero distance: the sill for bounded structures, but sill * f(field) for the
+    // intrinsic ones (LINEAR: field*pi/2 - h, ...), whose variogram mode is a difference of such large numbers
+    double c0 = 0;
+    for (int v = 0; v < nvar; v++) c0 = std::max(c0, std::fabs(cv->eval0(v, v)));
+    S += std::max(smax, c0);
+    SU += std::max(1.0, smax > 0 ? c0 / smax : 1.0); // same magnitude without the sill (CovCalcMode unitary)
     if (cv->getType() == ECov::NUGGET) continue;
     for (int d = 0; d < ndim; d++) minScale = std::min(minScale, cv->getScale(d));
   }
@@ -271,7 +277,7 @@ static void run_case(Rng& r, Ctx& c)
           if (e > maxerr) { maxerr = e; wi = i; wj = j; }
         }
       double tol = 1e3 * EPS * (S + maxabs) * amp;
-      if (rq.modeKind == 3 || rq.modeKind == 6) tol = 1e3 * EPS * ((double)ms.st.size() + maxabs) * amp; // unitary: sills are 1
+      if (rq.modeKind == 3 || rq.modeKind == 6) tol = 1e3 * EPS * (SU + maxabs) * amp; // unitary: sills are 1
       bool ok = !nan && maxerr <= tol;
       c.check(oname, key, ok, nan ? INFINITY : maxerr, tol,
               ok ? what
